@@ -6,7 +6,9 @@
    b_reqalign / b_reqsize are exactly the alignment and size passed to the OAlloc that created the
    block (TlsfStep.live_effect / C06), and never change while the block is live. *)
 From Coq Require Import ZArith List.
+From Coq Require Import Lia.
 From Arsenal Require Import Util Bits Gran Tlsf TlsfStep TlsfProps.
+From Arsenal Require Linear LinearInv LinearAlloc LinearFree LinearStep LinearSwap LinearVisit LinearProps.
 Open Scope Z_scope.
 
 Theorem C01_tlsf : forall h gr size ops,
@@ -24,3 +26,32 @@ Print Assumptions C01_tlsf.
 Example C01_tlsf_nonvacuous :
   cfg_ok 1024 4096 /\ Forall op_ok ex_ops /\ length (live (run (tlsf_init HVam 1024 4096) ex_ops)) = 3%nat.
 Proof. exact (conj ex_cfg_ok (conj ex_ops_ok ex_live_three)). Qed.
+
+Module LinearHalf.
+Import Linear LinearInv LinearAlloc LinearFree LinearStep LinearSwap LinearVisit LinearProps.
+Import ListNotations.
+
+(* Linear half: every state reachable from a fresh linear block by an admissible history (any mix
+   of lower / upper / ring-buffer requests, frees in any order, clears; power-of-two alignments;
+   any granularity that is a power of two, either handler) has only in-bounds, aligned, large
+   enough, pairwise disjoint live items. *)
+Theorem C01_linear : forall h gr size l,
+  lcfg_ok gr size -> lreach h gr size l ->
+  forall x, In x (LinearInv.live l) ->
+    0 <= s_off x /\ s_off x + s_size x <= size /\ 0 < s_reqalign x /\ s_off x mod s_reqalign x = 0 /\
+    s_reqsize x <= s_size x /\
+    forall y, In y (LinearInv.live l) -> x <> y -> disjoint x y.
+Proof. exact linear_alloc_sound. Qed.
+Print Assumptions C01_linear.
+
+(* non-vacuity (linear): an admissible history through ring buffer, lazy deletion and vector swap *)
+Example C01_linear_nonvacuous :
+  lcfg_ok 1 100 /\ lreach HVam 1 100 (lrun (linear_init HVam 1 100) LinearStep.ex_ops) /\
+  map s_off (LinearInv.live (lrun (linear_init HVam 1 100) LinearStep.ex_ops)) = [0; 24]%Z.
+Proof.
+  split; [split; [lia|exists 0; split; [lia|reflexivity]]|].
+  split; [exists LinearStep.ex_ops; split; [exact (proj1 LinearStep.ex_ops_ok)|reflexivity]|].
+  exact (proj1 (proj2 LinearStep.ex_ops_ok)).
+Qed.
+
+End LinearHalf.
